@@ -16,15 +16,28 @@ try:
     IO_TABLES_STATUS = translate_c07.generate(core.REPO, os.path.join(core.COQ, "gen"))
 except Exception as _ex:  # the generator itself broke: same fallback as an unparseable source
     IO_TABLES_STATUS = "unparsed generator-failed: %s" % str(_ex)[:200]
+# round 3: coq/gen/IoTables3.v (trait table of fmt/mod.rs, the in_radix digit-case rule, sign / padding literals, the
+# Debug printer's literals and radix, BUFFER_LEN_MIN, the separator byte, the num-traits / serde string routes)
+try:
+    import translate_c07_r3
+    IO_TABLES3_STATUS = translate_c07_r3.generate(core.REPO, os.path.join(core.COQ, "gen"))
+except Exception as _ex:
+    IO_TABLES3_STATUS = "unparsed generator-failed: %s" % str(_ex)[:200]
 
 
 def extra_phase(tier, seed, exes, oracle):
     word = IO_TABLES_STATUS.split(" ", 1)[0]
+    word3 = IO_TABLES3_STATUS.split(" ", 1)[0]
     return {
         "evaluations": 0,
-        "hist": {"translator_c07:IoTables:" + word: 1},
+        "hist": {"translator_c07:IoTables:" + word: 1, "translator_c07_r3:IoTables3:" + word3: 1},
         "nontrivial": [],
-        "samples": [{"fragment": "coq/gen/IoTables.v (tools/translate_c07.py from integer/src/radix.rs, parse/mod.rs, math.rs, "
+        "samples": [{"fragment": "coq/gen/IoTables3.v (tools/translate_c07_r3.py from integer/src/fmt/mod.rs, fmt/non_power_two.rs, "
+                                 "fmt/digit_writer.rs, parse/*.rs, third_party/num_traits.rs, third_party/serde.rs)",
+                     "status": IO_TABLES3_STATUS,
+                     "tied_by": "C07_fmt_tables, C07_trait_table, C07_inradix_case, C07_layout_literals, C07_debug, C07_third_party_routes" if word3 == "ok"
+                                else "correspondence run only (source not parsed; previous copy marked STALE)"},
+                    {"fragment": "coq/gen/IoTables.v (tools/translate_c07.py from integer/src/radix.rs, parse/mod.rs, math.rs, "
                                  "fmt/non_power_two.rs, parse/non_power_two.rs, arch/generic/digits.rs)",
                      "status": IO_TABLES_STATUS,
                      "tied_by": "C07_tables_digit, C07_tables_prefix, C07_tables_consts, C07_digit_buffers_fit, C07_swar_chunk" if word == "ok"
@@ -495,6 +508,69 @@ def chunks_case(rng, tier):
     return "from_chunks %x%s" % (cb, "".join(" " + hx(c) for c in cs))
 
 
+DBG_SPECS_NW = [".", ".", ".#", ".#", ".+", ".+#"]
+DBG_SPECS_WW = [".w", ".0w", ".#0w", ".+w", ".<w", ".*^+#w", ".*>#w"]
+
+
+def dbg_value(rng, tier):
+    """magnitudes around the Debug printer's switches: one word, double word (all digits), >= 2^128 (19 + 19 digits);
+    head / tail digit patterns (9..9, 10..0, zeros at the start of the tail), exact powers of ten, word boundaries"""
+    k = rng.below(14)
+    if k == 0:
+        return rng.choice([0, 1, 9, 10, (1 << 63), (1 << 64) - 1, 1 << 64, (1 << 64) + 1, (1 << 127), (1 << 128) - 1, 1 << 128, (1 << 128) + 1,
+                           10 ** 19 - 1, 10 ** 19, 10 ** 38 - 1, 10 ** 38, 10 ** 38 + 1, 10 ** 39 - 1, 10 ** 39])
+    if k == 1:
+        e = rng.choice([38, 39, 40, 41, 57, 58, 76, 77, 78, rng.range(38, 400)])
+        return 10 ** e + rng.choice([-1, 0, 1, 10 ** 19 - 1, 10 ** 19, 10 ** 18, rng.below(10 ** 19)])
+    if k == 2:
+        # head 99..9 / 100..0 with an arbitrary tail: the one Knuth step at its extremes
+        e = rng.range(39, 200)
+        head = rng.choice([10 ** 19 - 1, 10 ** 18, 10 ** 18 + 1, 10 ** 19 - 2, rng.range(10 ** 18, 10 ** 19 - 1)])
+        return head * 10 ** (e - 18) + rng.choice([0, 1, 10 ** (e - 18) - 1, rng.below(10 ** (e - 18))])
+    if k == 3:
+        # tail with leading zeros
+        hi = rng.bits(rng.range(70, 400)) + (1 << 70)
+        return hi * 10 ** 19 + rng.choice([0, 1, 9, 10 ** 18 - 1, 10 ** 18, rng.below(10 ** rng.range(1, 19))])
+    if k == 4:
+        # word boundaries of the number and of the divisor 10^(digits-19)
+        n = rng.choice([2, 3, 3, 4, 5, 8, 16, 33])
+        return (1 << (64 * n)) + rng.choice([-1, 0, 1])
+    if k == 5:
+        return gen_mag(rng, rng.choice([3, 3, 4, 5, 6, 7, 8, 15, 16, 17, 31, 32, 33, 64]))
+    if k == 6 and tier == "thorough":
+        return gen_mag(rng, rng.choice([100, 257, 600, 1500]))
+    if k == 7:
+        return rng.bits(rng.range(1, 128))
+    if k == 8:
+        return (1 << 128) + rng.bits(rng.range(1, 128))
+    if k == 9:
+        return gen_mag(rng, rng.choice([1, 2, 2]))
+    return abs(gen_int(rng, tier))
+
+
+def dbg_case(rng, tier):
+    v = dbg_value(rng, tier)
+    if rng.chance(1, 2):
+        v = -v
+    spec = rng.choice(DBG_SPECS_NW) if rng.chance(3, 4) else rng.choice(DBG_SPECS_WW)
+    return "dbg %s %s %x %s" % (rng.choice("ui"), spec, rng.choice([0, 1, 5, 30, 60, 100]), hx(v))
+
+
+def serde_case(rng, tier):
+    if rng.chance(1, 2):
+        r = 10
+        v = value_with_digits(rng, r, digit_count_classes(rng, r, tier, False)) * rng.choice([1, -1])
+        return "serde %s %s" % (rng.choice("ui"), hx(v))
+    # the human readable deserialiser: prefix grammar, default radix 10, the radix is dropped
+    if rng.chance(1, 3):
+        text = rng.choice(FIXED_BAD)
+    else:
+        r = rng.choice([10, 10, 2, 8, 16])
+        body = decorate(rng, gen_digits(rng, r, digit_count_classes(rng, r, tier, False)), r)
+        text = rng.choice(["", "", "+", "-"]) + {2: "0b", 8: "0o", 16: "0x", 10: ""}[r] + body
+    return "deser %s %s" % (rng.choice("ui"), xs(text))
+
+
 def gen_cases(rng, tier, n):
     out = []
     nhuge = 0
@@ -505,8 +581,10 @@ def gen_cases(rng, tier, n):
         if rng.chance(1, 40) and nhuge < max_huge:
             huge = True
             nhuge += 1
-        if k < 25:
+        if k < 21:
             out.append(fmt_flag_case(rng, tier))
+        elif k < 25:
+            out.append(dbg_case(rng, tier) if rng.chance(3, 4) else serde_case(rng, tier))
         elif k < 29:
             out.append(fmt_dc_case(rng, tier, huge))
         elif k < 46:
